@@ -110,8 +110,8 @@ CLAIMS.update({
     "C12": ("Lean theorems, for every world and queue state, per round of the priority scheduler: each queue run consumes a prefix of its FIFO queue and assigns in queue order; a lower "
             "queue is served only if the higher one was drained, and anything left waiting implies every pool is out of free CPU or RAM in the scheduler's accounting (strict priority + work "
             "conservation); the chosen pool is open and has the most free RAM; suspensions only while a query job is still waiting, at most one per waiting query job, only active non-query "
-            "containers at an operator boundary; a job remembered under a container found in a suspended list is put back into its queue. NOT proved: arrival order *across* rounds and the "
-            "link from queue membership to 'ready pending operator' (checked on traces). Tie: closed-loop lock-step incl. preemption scenarios with single-tick suspensions, exact-fit pools; "
+            "containers at an operator boundary; a job remembered under a container found in a suspended list is put back into its queue. before its main loop a round only appends to the queues (`queues_only_grow_at_the_end`), so with head-first consumption equal-priority work is served "
+            "first come, first served across rounds. NOT proved: the link from queue membership to 'ready pending operator' (checked on traces). Tie: closed-loop lock-step incl. preemption scenarios with single-tick suspensions, exact-fit pools; "
             "`check_C12` (order, conservation, preemption rules, re-offer) on every implementation trace.", "Props/C12.lean"),
     "C16": ("Lean theorems: the class invariant of the three queues holds initially and is kept by every round (so at every round of every run); given it, every assignment of query or "
             "interactive work goes to pool 0 and every other one to pool 1, first attempts and retries alike; the scheduler never suspends; a failed container's unfinished operators are "
